@@ -1,6 +1,7 @@
 import LocustModel.Proto
 import LocustModel.Store.Machine
 import LocustModel.Store.Spec
+import LocustModel.Store.Effects
 /-
   Shared part of the C08 / C13 / C18 drivers: parsing of history lines, execution of the machine model on them
   (with the flush inputs — planner choice and sub-partition keys — inferred from the catalogue the harness
@@ -8,6 +9,9 @@ import LocustModel.Store.Spec
 
   History line:   <cfg> <step> <step> …
      cfg   = `cfg=<combine>,<part_bytes>,<io>,<cthreads>,<wal_files>,<wal_bytes>`
+     (C18 only, after the `L…` token) `E<phase>><phase>…` the file-system effects observed during the last step,
+           phase = `<kind>:<hex path>,…` with kind w (store segment) s (store partition file) m (store catalogue)
+           d (remove partition file) x (remove segment); `E_` when there was none
      step  = `I<share>;<share>…`        share = `<hex table>:<nrows>:<hex col>=<cell>.<cell>…/<hex col>=…`
            | `F<catalogue>` | `B<catalogue>`   force_flush / background flush, with the catalogue found on disk afterwards
            | `R`                         drop + reopen
@@ -100,6 +104,8 @@ structure Sim where
   /-- classifier of the open finding `compaction-null-loss` (C07): some compaction so far merged rows that have a
       NULL cell (explicit, or because a batch did not mention the column) in a column of the table -/
   nullCompacted : Bool := false
+  /-- effect phases of the last step of the history (an `I`/`R` token and the `B` that may follow it) -/
+  lastEff : List (List (Eff N)) := []
 
 def Sim.init (maxWal : Nat) : Sim :=
   { w := initWorld (params maxWal), tables := [.metaTables], dirs := [], ops := [], lastWasFlush := false,
@@ -167,7 +173,7 @@ def Sim.stepTok (s : Sim) (tok : String) : Sim :=
     | some r =>
       let ts := r.flatMap (fun sh => match sh.1 with | .user n => [TName.user n, TName.metaCols n] | t => [t])
       let s' := s.applyOp (.ingest r 0) false
-      { s' with tables := addNew s'.tables ts }
+      { s' with tables := addNew s'.tables ts, lastEff := ingestPhases s.w }
   | 'F' :: _ | 'B' :: _ =>
     match parseCatalogue (tok.drop 1).toString with
     | none => { s with fault := some "bad-op" }
@@ -177,8 +183,12 @@ def Sim.stepTok (s : Sim) (tok : String) : Sim :=
                          lastObs := obs }
       let fi := inferFlush s1 parts
       let s2 := { s1 with nullCompacted := s1.nullCompacted || fi.compactions.any (fun c => mergesNull s1 c.1 c.2) }
-      s2.applyOp (.flush fi) true
-  | ['R'] => s.applyOp (.restart (fun _ r => r)) false
+      let ph := match flushStages (params s.maxWal) s2.w fi with
+        | .ok st => flushPhases s2.tables s2.w st
+        | .error _ => []
+      let isB := tok.startsWith "B"
+      { (s2.applyOp (.flush fi) true) with lastEff := (if isB then s.lastEff else []) ++ ph }
+  | ['R'] => { (s.applyOp (.restart (fun _ r => r)) false) with lastEff := [] }
   | _ => { s with fault := some "bad-op" }
 
 def parseCfgMaxWal (tok : String) : Nat :=
@@ -195,6 +205,20 @@ def runLine (line : String) : Option (Sim × Option String) :=
       | last :: rest => if last.startsWith "L" then (rest.reverse, some last) else (toks, none)
       | [] => ([], none)
     some (steps.foldl Sim.stepTok (Sim.init (parseCfgMaxWal cfg)), ltok)
+  | [] => none
+
+/-- Like `runLine`, with the trailing `L…` and `E…` tokens (in this order, both optional). -/
+def runLine2 (line : String) : Option (Sim × Option String × Option String) :=
+  match splitTokens line with
+  | cfg :: toks =>
+    if !cfg.startsWith "cfg=" then none else
+    let (toks1, etok) := match toks.reverse with
+      | last :: rest => if last.startsWith "E" then (rest.reverse, some last) else (toks, none)
+      | [] => ([], none)
+    let (steps, ltok) := match toks1.reverse with
+      | last :: rest => if last.startsWith "L" then (rest.reverse, some last) else (toks1, none)
+      | [] => ([], none)
+    some (steps.foldl Sim.stepTok (Sim.init (parseCfgMaxWal cfg)), ltok, etok)
   | [] => none
 
 -- ---------------------------------------------------------------------------------------------- printing
@@ -260,6 +284,23 @@ def dumpSpec (s : Sim) : String :=
     "MC" ++ n ++ "=" ++ showList id (dedupStrs (sortStrs ((namesIn (acked s.ops (.user n))).map cnameTok))))
   " ".intercalate (tabs ++ [mt] ++ mcs)
 
+/-- `LocustDB::search_column_names(t, ".*")` per user table (C13): the names the column catalogue lists. -/
+def dumpSearchModel (s : Sim) : String :=
+  match s.fault with
+  | some _ => ""
+  | none =>
+  " " ++ " ".intercalate ((userTables s).map (fun n =>
+    "SC" ++ n ++ "=" ++
+      (match s.w.mem.tables (.metaCols n) with
+       | none => "err"
+       | some tm => match tableBatches tm with
+         | .ok bs => showList id (sortStrs ((readColumn .columnName bs).map cellTok))
+         | .error _ => "err")))
+
+def dumpSearchSpec (s : Sim) : String :=
+  " " ++ " ".intercalate ((userTables s).map (fun n =>
+    "SC" ++ n ++ "=" ++ showList id (dedupStrs (sortStrs ((namesIn (acked s.ops (.user n))).map cnameTok)))))
+
 def hexAscii (s : String) : String :=
   String.ofList (s.toList.flatMap (fun c => [hexChar (c.toNat / 16), hexChar (c.toNat % 16)]))
 
@@ -296,6 +337,38 @@ def catalogueModel (s : Sim) : String :=
       (sortMetas (mf.parts nt.2)).map (fun m =>
         s!"{nt.1}:{dirOf s nt.2}:{m.id}:{m.offset}:{m.len}:{"+".intercalate m.keys}"))
     "|".intercalate (s!"C{mf.cursor}" :: entries)
+
+def effTok (s : Sim) (e : Eff N) : String × String :=
+  match e with
+  | .storeWal id => ("w", "x" ++ hexAscii s!"wal/{id}.wal")
+  | .storePart t id k => ("s", partPathTok (dirOf s t) id k)
+  | .storeMeta => ("m", "x" ++ hexAscii "meta")
+  | .delPart t id k => ("d", partPathTok (dirOf s t) id k)
+  | .delWal id => ("x", "x" ++ hexAscii s!"wal/{id}.wal")
+
+/-- Effect phases predicted by the model for the last step: `E<kind>:<paths>><kind>:<paths>…`, empty phases dropped. -/
+def effectsModel (s : Sim) : String :=
+  match s.fault with
+  | some f => "fault:" ++ f
+  | none =>
+  let phases := s.lastEff.filterMap (fun ph =>
+    match ph.map (effTok s) with
+    | [] => none
+    | (k, p) :: rest => some (k ++ ":" ++ ",".intercalate (sortStrs (p :: rest.map (·.2)))))
+  if phases.isEmpty then "E_" else "E" ++ ">".intercalate phases
+
+/-- C18 / C08 mechanism, judged on the OBSERVED effect phases of a step: every partition file is stored before the
+    catalogue file, and files (merged-away partitions, log segments) are removed only after the catalogue file was
+    stored. -/
+def judgeEffects (etok : String) : String :=
+  if etok = "E_" then "OK" else
+  let kinds := ((etok.drop 1).toString.splitOn ">").map (fun ph => (ph.take 1).toString)
+  let idxM := kinds.findIdx? (· = "m")
+  let bad := (List.range kinds.length).zip kinds |>.filter (fun (ik : Nat × String) =>
+    match idxM with
+    | none => ik.2 = "d" || ik.2 = "x"
+    | some m => (ik.2 = "s" && ik.1 > m) || ((ik.2 = "d" || ik.2 = "x") && ik.1 < m))
+  if bad.isEmpty then "OK" else s!"BAD effect-order {etok}"
 
 /-- C18 spec, judged on the observed listing: exactly the catalogue file and the files the observed catalogue refers to. -/
 def judgeListing (obs : Option (Nat × List ObsPart)) (ltok : String) : String :=
